@@ -101,3 +101,27 @@ Definition check_run (m : metric) (mem max_size : nat) (pred : nat -> src -> pt)
    and for comparison with Linker.subnets) *)
 Definition group_sizes (m : metric) (pred : nat -> src -> pt) (st : lstate) (ds : list pt) : list nat :=
   map (fun g => length g) (components (items_of m pred st ds)).
+
+(* ---- monitor for a single subnet: the implementation's choice per source ---- *)
+Definition cand_eqb (a b : cand) : bool :=
+  match fst a, fst b with
+  | Some x, Some y => Nat.eqb x y && Z.eqb (snd a) (snd b)
+  | None, None => Z.eqb (snd a) (snd b)
+  | _, _ => false
+  end.
+
+Fixpoint all_in (srcs : list (list cand)) (ch : list cand) : bool :=
+  match srcs, ch with
+  | [], [] => true
+  | cs :: srcs', c :: ch' => existsb (cand_eqb c) cs && all_in srcs' ch'
+  | _, _ => false
+  end.
+
+Definition check_choice (srcs : list (list cand)) (ch : list cand) : N :=
+  if negb (Nat.eqb (length srcs) (length ch)) then 6%N
+  else if negb (all_in srcs ch) then 1%N
+  else if negb (nodup_b (reals ch)) then 2%N
+  else match solve srcs with
+       | None => 7%N
+       | Some (v, _) => if v <? total ch then 3%N else if total ch <? v then 7%N else 0%N
+       end.
